@@ -639,7 +639,11 @@ func c18Policy(c *Ctx, p *Prog) {
 		return &e6Interp{PureCall: func(f *types.Func) bool {
 			n := f.Name()
 			return n == "StringValues" || n == "NormalizeDateString" || n == "concat" || n == "union"
-		}}
+		},
+			// the combination may live in a loop-free method of the comparison: evaluated in place
+			Inline: func(f *ssa.Function) bool {
+				return f.Pkg == fn.Pkg && f.Signature.Recv() != nil && recvName(f.Signature.Recv().Type()) == "Comparison" && len(naturalLoops(f)) == 0 && len(f.Blocks) <= 8
+			}}
 	}
 	outs, why := e6Enumerate(mk, start, target.Header, iterStop(target, start), 4096)
 	if why != "" {
@@ -746,6 +750,22 @@ func c18Policy(c *Ctx, p *Prog) {
 				}
 				if strings.Contains(o.memStr(numStore.Args[1], "Values"), "baseline") || !strings.Contains(o.memStr(denStore.Args[1], "Values"), "baseline") {
 					errs = append(errs, "numerator and denominator samples are mixed up when combining")
+				}
+			}
+			if older == nil {
+				// no comparison of the dates: the date must be set to the later of the two outright
+				okMax := false
+				if dateStore != nil {
+					v := dateStore.Args[1]
+					if v.Op == "call" && strings.Split(v.Name, "@")[0] == "max" && len(v.Args) == 2 {
+						a, b := v.Args[0], v.Args[1]
+						isOld := func(s *Sym) bool { return s.IsFieldLoad(dateF) }
+						isNew := func(s *Sym) bool { return strings.Contains(s.String(), "NormalizeDateString") }
+						okMax = (isOld(a) && isNew(b)) || (isOld(b) && isNew(a))
+					}
+				}
+				if !okMax {
+					errs = append(errs, "combining does not keep the later of the two experiment dates")
 				}
 			}
 			if older != nil {
